@@ -1479,31 +1479,41 @@ def handler_lag_probe(n_per_writer=450, busy_ms=3000):
         # (with a heartbeat: synthetic xs.pulse frames queue up behind the real ones while the handler is busy)
         script = ('{ resume_from: "tail", pulse: 400, run: {|frame| if $frame.topic == "slow" { sleep %dms }; '
                   'if $frame.topic != "trig" { return }; $frame.id } }' % busy_ms)
-        hid = cl.append("h.register", body=script.encode())
-        if cl.wait_topic("h.registered", after=hid or 0) is None:
+        # the handler lives in a context of its own; the burst goes to that context AND to the zero context (whose `trig`
+        # frames must never reach it - not even after it had to subscribe again)
+        b = cl.append("xs.context") or 0
+        hid = cl.append("h.register", ctx=b, body=script.encode())
+        if cl.wait_topic("h.registered", ctx=b, after=hid or 0) is None:
             return dict(error="the probe handler was never announced as registered")
-        cl.append("slow")
-        trigs, lock = [], threading.Lock()
+        cl.append("slow", ctx=b)
+        trigs, foreign, lock = [], [], threading.Lock()
         def w(k):
             for i in range(n_per_writer):
                 t = "trig" if i % 10 == k else "other"
-                x = cl.append(t, body=b"x")
+                x = cl.append(t, ctx=b, body=b"x")
                 if t == "trig" and x:
                     with lock:
                         trigs.append(x)
+                if i % 25 == k:
+                    y = cl.append("trig", ctx=0, body=b"foreign")
+                    if y:
+                        with lock:
+                            foreign.append(y)
         ths = [threading.Thread(target=w, args=(k,)) for k in range(3)]
         for t in ths:
             t.start()
         for t in ths:
             t.join()
         time.sleep(busy_ms / 1000 + 0.5)
-        last = cl.append("trig", body=b"after")
+        foreign.append(cl.append("trig", ctx=0, body=b"foreign-after"))
+        last = cl.append("trig", ctx=b, body=b"after")
         trigs.append(last)
         cl.settle(0.8, 40)
         fr = cl.frames()
         outs = [H.s_to_id(f["meta"]["frame_id"]) for f in fr if f["topic"] == "h.out" and f["meta"] and f["meta"].get("handler_id") == H.id_to_s(hid)]
         unreg = [f for f in fr if f["topic"] == "h.unregistered"]
         return dict(appended=3 * n_per_writer + 2, triggers=len(trigs), outs=len(outs), in_order=outs == sorted(outs), dups=len(outs) - len(set(outs)),
-                    missing=len(set(trigs) - set(outs)), last_served=last in outs, unregistered=len(unreg))
+                    missing=len(set(trigs) - set(outs)), last_served=last in outs, unregistered=len(unreg),
+                    foreign_served=len(set(foreign) & set(outs)), foreign_appended=len(foreign))
     finally:
         cl.close()
